@@ -180,3 +180,40 @@ Proof.
   unfold K_Minter_NextPhaseProvisions, next_phase_provisions, zmax0. cbn [G_Minter_Inflation G_Phase_YearCoefficient].
   destruct (supply - exclude <? 0) eqn:E; [apply Z.ltb_lt in E; rewrite Z.max_l by lia; reflexivity|apply Z.ltb_ge in E; rewrite Z.max_r by lia; reflexivity].
 Qed.
+
+(* ---- x/market/types/market.go, x/bet/types/bet.go, LockedBalance.Validate, ValidateWithdraw ------------------------------------------- *)
+Definition gm_of (mk : market) : G_Market :=
+  {| G_Market_UID := k_uid mk; G_Market_StartTS := k_start mk; G_Market_EndTS := k_end mk; G_Market_Odds := zlen (k_odds mk);
+     G_Market_WinnerOddsUIDs := zlen (k_winners mk); G_Market_Status := k_status mk; G_Market_ResolutionTS := k_rts mk;
+     G_Market_Creator := k_creator mk; G_Market_Meta := 0; G_Market_BookUID := k_uid mk |}.
+
+Lemma gen_market_update_allowed mk : K_Market_IsUpdateAllowed (gm_of mk) = status_ai (k_status mk).
+Proof. reflexivity. Qed.
+Lemma gen_market_resolve_allowed mk : K_Market_IsResolveAllowed (gm_of mk) = status_ai (k_status mk).
+Proof. reflexivity. Qed.
+Lemma gen_market_resolved mk : K_Market_IsResolved (gm_of mk) = status_resolved (k_status mk).
+Proof.
+  unfold K_Market_IsResolved, status_resolved, MK_CANCELED, MK_ABORTED, MK_DECLARED. cbn [gm_of G_Market_Status].
+  destruct (k_status mk =? 5), (k_status mk =? 3), (k_status mk =? 4); reflexivity.
+Qed.
+
+(* Bet_STATUS_CANCELED (2) is never assigned by any code path; apart from it the eligibility test is "not settled yet" *)
+Lemma gen_bet_eligible st uid mkt odds ov amt fee res cr cat sh ml bf : st <> 2 ->
+  K_Bet_CheckSettlementEligiblity {| G_Bet_UID := uid; G_Bet_MarketUID := mkt; G_Bet_OddsUID := odds; G_Bet_OddsValue := ov; G_Bet_Amount := amt;
+      G_Bet_Fee := fee; G_Bet_Status := st; G_Bet_Result := res; G_Bet_Creator := cr; G_Bet_CreatedAt := cat; G_Bet_SettlementHeight := sh;
+      G_Bet_MaxLossMultiplier := ml; G_Bet_BetFulfillment := bf |} = negb (st =? BS_SETTLED).
+Proof.
+  intros H. unfold K_Bet_CheckSettlementEligiblity, BS_SETTLED. cbn [G_Bet_Status].
+  destruct (st =? 6); [reflexivity|]. destruct (Z.eqb_spec st 2); [contradiction|reflexivity].
+Qed.
+
+Lemma gen_lock_ok now ts amt : K_LockedBalance_Validate {| G_LockedBalance_UnlockTS := ts; G_LockedBalance_Amount := amt |} = lock_ok now (ts, amt).
+Proof. unfold K_LockedBalance_Validate, lock_ok. cbn [G_LockedBalance_UnlockTS G_LockedBalance_Amount fst snd]. destruct (ts =? 0); [reflexivity|]. destruct (amt <? 0); reflexivity. Qed.
+
+(* the two guards at the head of calc_withdrawal *)
+Lemma gen_ValidateWithdraw p depositor idx :
+  K_OrderBookParticipation_ValidateWithdraw (gp_of p) depositor idx = negb (p_settled p) && (p_owner p =? depositor).
+Proof.
+  unfold K_OrderBookParticipation_ValidateWithdraw. cbn [gp_of G_OrderBookParticipation_IsSettled G_OrderBookParticipation_ParticipantAddress].
+  destruct (p_settled p); [reflexivity|]. destruct (p_owner p =? depositor); reflexivity.
+Qed.
